@@ -203,7 +203,11 @@ func gen(kind string) func(t *rapid.T) Case {
 			}
 		}
 		if len(build) > 0 && rapid.Bool().Draw(t, "build-phase") {
-			c.Before = refl.GenSteps(t, build, 1, 14)
+			chunks := 1
+			if rapid.IntRange(0, 7).Draw(t, "big-build") == 0 {
+				chunks = 8 // dozens to hundreds of elements before Clear
+			}
+			c.Before = refl.GenSteps(t, build, chunks, 14)
 		}
 		c.Before = append(c.Before, refl.GenSteps(t, weighted, 2, 10)...)
 		c.After = refl.GenSteps(t, weighted, 2, 10)
